@@ -47,6 +47,8 @@ def required_cells(tier):
             "chain:interleaved-additions": 3, "kind:weak": 3,
             "chain:weak-control": 3, "route:gradient": 5,
             "route:meanfield": 3, "post-flag:numpy.bool_": 5,
+            "mix:identity-other-spec-same-step": 5,
+            "mix:identity-other-side-same-float-time": 4,
             "post-flag:int": 5}
 
 
@@ -107,6 +109,27 @@ def run_single(case):
             ctrl.add_single(tkey, s, post=post_flag)
         else:
             ctrl.add_single(int(step), s, post=post_flag)
+    # identity controls change nothing - also when given in the OTHER way
+    # (float time vs int step) for the same step and side, or for the other
+    # side at exactly the same float time
+    ident_sup = np.eye(d * d, dtype=complex)
+    mixk = (i // 2) % 5
+    if mixk == 1:
+        if spec == "float":
+            ctrl.add_single(int(step), ident_sup, post=post_flag)
+        else:
+            ctrl.add_single(tkey, ident_sup, post=post_flag)
+        extra_mix = "identity-other-spec-same-step"
+    elif mixk == 2 and spec == "float":
+        ctrl.add_single(tkey, ident_sup, post=not post)
+        extra_mix = "identity-other-side-same-float-time"
+    elif mixk == 3 and spec == "float":
+        # identity first, then nothing else changes either
+        ctrl.add_single(float(tkey), ident_sup, post=not post)
+        ctrl.add_single(int(step), ident_sup, post=post_flag)
+        extra_mix = "identity-other-side-same-float-time"
+    else:
+        extra_mix = None
     # a second, unrelated control elsewhere (must not interfere)
     other = None
     if i % 3 == 0 and nsteps >= 3:
@@ -276,6 +299,8 @@ def run_single(case):
         cells.append("step:last")
     cells += extra_cells
     cells += ["route:" + r for r in extra_routes]
+    if extra_mix:
+        cells.append("mix:" + extra_mix)
     cells.append("post-flag:" + flag_kind)
     if i % 3 == 1:
         cells.append("record_all:False")
